@@ -148,7 +148,7 @@ Fixpoint wf (s : spec) : bool :=
 Fixpoint conforms_g (fr : bool) (s : spec) (v : value) {struct s} : bool :=
   match s, v with
   | SReal _ _ mn mx, VReal x =>
-      (negb fr || fin x) && negb (fnan x) && opt_le_f mn x && opt_ge_f mx x
+      (negb fr || fin x) && opt_le_f mn x && opt_ge_f mx x
   | SInt _ _ mn mx, VInt z =>
       match mn with Some a => Z.leb a z | None => true end &&
       match mx with Some b => Z.leb z b | None => true end
@@ -194,7 +194,7 @@ Fixpoint reals_finite (v : value) : bool :=
     the harness prints maps sorted by key) *)
 Fixpoint veqb (a b : value) : bool :=
   match a, b with
-  | VReal x, VReal y => Z.eqb (to_bits x) (to_bits y)
+  | VReal x, VReal y => fbits_eq x y
   | VInt x, VInt y => Z.eqb x y
   | VBool x, VBool y => Bool.eqb x y
   | VSub m1, VSub m2 =>
